@@ -1,5 +1,8 @@
 """C10 - context config survives export/import; a failed change changes nothing.   (fault enumeration)
 
+(A2) histories: one context object driven through sequences of load()/update() (valid and refused), compared after every
+    step - incl. calls carrying a context keyword (user=) - with a context built afresh from its own export; exported
+    lists are edited and must not reach the live configuration.
 (A) round trips over generated configurations: to_dict / to_string -> new context, copy(), empty update(): same exported
     configuration and the same decisions on a fixed corpus; update(k=v) replaces exactly the given keys.
 (B) every kind of invalid change x every position of the offending item, through update(**kw), update(dict), load(dict),
@@ -97,8 +100,95 @@ def gen_cfg(rng):
     # C10 extras: float / percent vary_rounds, string-typed numbers are applied by the rendering style
     for s in cfg["schemes"]:
         if s in c04.ROUNDS and H.get(s).rounds_cost == "linear" and rng.random() < 0.3 and "rounds" not in cfg["opts"].get(s, {}):
-            cfg["opts"].setdefault(s, {})["vary_rounds"] = rng.choice([0.125, 0.333, 0.1, "10%", "12.5%", 0.05, 3])
+            cfg["opts"].setdefault(s, {})["vary_rounds"] = rng.choice([0.125, 0.333, 0.1, "10%", "12.5%", 0.05, 3, 1 / 3, 0.1234567, "57%", "7%", 0.30000000000000004, 2 / 7])
     return cfg
+
+
+# ------------------------------------------------------------------------------------------------ (A2) histories
+KW_SCHEMES = ["postgres_md5", "oracle10", "msdcc2", "msdcc", "cisco_pix", "cisco_asa"]
+KWDS = dict(user="someuser")
+
+
+def kw_fingerprint(ctx, corpus):
+    fp = fingerprint(ctx, corpus, full=False)
+    fp["context_kwds"] = fp_item(lambda: sorted(ctx.context_kwds))
+    fp["kw-hash"] = fp_item(lambda: ctx.identify(ctx.hash(PW, **KWDS)))
+    fp["kw-decisions"] = [(fp_item(lambda: ctx.verify(PW, hs, **KWDS)), fp_item(lambda: ctx.verify_and_update(PW, hs, **KWDS)[0]),
+                           fp_item(lambda: ctx.needs_update(hs))) for hs in corpus]
+    fp["nokw-decisions"] = [fp_item(lambda: ctx.verify(PW, hs)) for hs in corpus]
+    return fp
+
+
+def histories(run, start, count):
+    """one context object driven through a sequence of load()/update() calls (valid ones and refused ones); after every
+    step its answers - including calls carrying a context keyword (user=) - equal those of a context built afresh from its export"""
+    from passlib.context import CryptContext
+    import passlib.hash as PH
+    for idx in range(start, start + count):
+        rng = run.rng(f"hist{idx}")
+        pool = []
+        for _ in range(4):
+            cfg = c04.gen_cfg(rng)
+            try:
+                for cat in [None] + list(cfg["cats"]):
+                    M.default_scheme(cfg, cat)
+                    for s_ in cfg["schemes"]:
+                        if s_ in c04.ROUNDS:
+                            M.window(cfg, s_, cat, c04.limits(s_))
+            except M.Invalid:
+                continue
+            pool.append((M.render(cfg, rng.randrange(30)), cfg["schemes"]))
+        for _ in range(3):
+            ks = rng.sample(KW_SCHEMES, rng.choice([1, 1, 2])) + rng.sample(["md5_crypt", "sha256_crypt", "des_crypt"], rng.choice([0, 1, 2]))
+            rng.shuffle(ks)
+            pool.append((dict(schemes=ks), ks))
+        rng.shuffle(pool)
+        corpus = ["not a hash"]
+        for _, ss in pool:
+            for s_ in ss:
+                if s_ in KW_SCHEMES:
+                    corpus.append(getattr(PH, s_).hash(PW, **KWDS))
+                elif s_ != "unix_disabled":
+                    corpus.append(c04.corpus_hash(s_, c04.ROUNDS[s_][0] | (1 if s_ == "bsdi_crypt" else 0)) if s_ in c04.ROUNDS else c04.corpus_hash(s_, None))
+        corpus = sorted(set(corpus))[:14]
+        ctx = CryptContext()
+        trail = []
+        for step, (kw, ss) in enumerate(pool):
+            op = rng.choice(["load-dict", "load-ini", "load-context", "update-schemes", "refused-then-load"])
+            try:
+                if op == "load-dict":
+                    ctx.load(kw)
+                elif op == "load-ini":
+                    ctx.load(CryptContext(**kw).to_string())
+                elif op == "load-context":
+                    ctx.load(CryptContext(**kw))
+                elif op == "update-schemes":
+                    # an update that replaces the scheme list (and the keys naming schemes), keeping nothing that may dangle
+                    ctx.load({})
+                    ctx.update(**kw)
+                else:
+                    try:
+                        ctx.update(schemes=["md5_crypt", "no_such_scheme_at_all"])
+                    except Exception:
+                        pass
+                    ctx.load(kw)
+            except Exception as e:
+                run.violation(f"C10|history|{op}|raises|{type(e).__name__}", f"step {step} ({op}) with a valid configuration raised {type(e).__name__}: {str(e)[:100]}", dict(trail=trail, config=kw))
+                break
+            trail.append((op, kw))
+            fresh = CryptContext(**ctx.to_dict())
+            a, b = kw_fingerprint(ctx, corpus), kw_fingerprint(fresh, corpus)
+            run.case(("history", op, step, bool(set(ss) & set(KW_SCHEMES))), dict(operation=op, step=step, config=kw))
+            run.count("history_steps")
+            if set(ss) & set(KW_SCHEMES):
+                run.count("history_steps_with_context_kwds")
+            diff = [k for k in a if a[k] != b[k]]
+            if diff:
+                det = {k: (str(a[k])[:140], str(b[k])[:140]) for k in diff[:3]}
+                run.violation(f"C10|history|after-{op}|{'+'.join(sorted(d.split(':')[0] for d in diff))[:60]}",
+                              f"after {step + 1} load/update steps the context answers differently from one built afresh from its own export: {det}",
+                              dict(trail=trail, differs=diff))
+                break
 
 
 # ------------------------------------------------------------------------------------------------ (A) round trips
@@ -194,6 +284,14 @@ def _roundtrip_one(run, idx):
                 det = {k: (str(base[k])[:150], str(fp[k])[:150]) for k in diff[:3]}
                 mech = f"C10|roundtrip|{label}|{'+'.join(sorted(d.split(':')[0] for d in diff))[:60]}"
                 run.violation(mech, f"{label} changes the context: {det}", dict(config=kw, differs=diff), rp0 + f"# compare ctx with the result of {label}")
+        # an export is a snapshot: editing exported values (of the context or of a copy) does not reach the live configuration
+        for exported in (ctx.to_dict(), ctx.copy().to_dict(), ctx.to_dict(resolve=True)):
+            for v in exported.values():
+                if isinstance(v, list):
+                    v.reverse()
+                    v.append("no_such_scheme")
+                    run.count("exported_lists_edited")
+        _updated(ctx)
         # the original is untouched by all of the above
         again = fingerprint(ctx, corpus)
         if objects:
@@ -513,6 +611,11 @@ def body(run):
     q = run.tier == "quick"
     nrt = 160 if q else 3200
     run.parallel("checks.c10", "roundtrips", [dict(start=i * (nrt // 16), count=nrt // 16) for i in range(16)], timeout=900 if q else 3600)
+    nh = 64 if q else 1600
+    run.parallel("checks.c10", "histories", [dict(start=20000 + i * (nh // 16), count=nh // 16) for i in range(16)], timeout=900 if q else 3600)
+    run.require("history_steps", 100)
+    run.require("history_steps_with_context_kwds", 30)
+    run.require("exported_lists_edited", 50)
     nfc = 32 if q else 480
     run.parallel("checks.c10", "failed_changes", [dict(start=1000 + i * (nfc // 16), count=nfc // 16) for i in range(16)], timeout=900 if q else 3600)
     run.parallel("checks.c10", "raising_hasher", [dict(n=1 if q else 6)] * (4 if q else 16), timeout=900)
